@@ -281,10 +281,14 @@ package main
 
 //@ func parseTransactionAndMetaFromNode
 //@   requires transactionNode != nil
+//@   # C14: the frame getter is a real function (tooling.LoadDataFromDataFrames calls it for every next link)
+//@   requires dataFrameGetter != nil
 //@   noframe
 
 //@ func getTransactionAndMetaFromNode
 //@   requires transactionNode != nil
+//@   # C14: the frame getter is a real function (tooling.LoadDataFromDataFrames calls it for every next link)
+//@   requires dataFrameGetter != nil
 //@   noframe
 
 //@ func getErr
